@@ -126,12 +126,14 @@ Definition declare (st : state) (glob : bool) (en : env) (x : name) (v : value) 
   else
     let '(s1, c) := alloc_cell s v in (w_store st s1, (x, c) :: en).
 
-(* the receiver variable of the innermost function: "self", "Self" or "" (compiler.rs super_) *)
+(* the receiver variable used by `super` (compiler.rs super_) *)
+(* repo 0fbde2d: inside a function nested in a method it is the METHOD's receiver: the innermost
+   binding named `self` or `Self` (the nameless slot 0 of plain functions is skipped) *)
 Fixpoint lookup_slot0 (en : env) : option addr :=
   match en with
   | [] => None
   | (x, c) :: r =>
-    if bytes_eqb x [] || bytes_eqb x (B "self") || bytes_eqb x (B "Self") then Some c
+    if bytes_eqb x (B "self") || bytes_eqb x (B "Self") then Some c
     else lookup_slot0 r
   end.
 
@@ -522,17 +524,45 @@ Fixpoint registry_find (p : bytes) (l : list (bytes * addr)) : option addr :=
   | (q, a) :: r => if bytes_eqb p q then Some a else registry_find p r
   end.
 
+(* is the body of module [m] executing in a call on continuation [k]? *)
+Fixpoint kont_loads (s : store) (m : addr) (k : list frame) : bool :=
+  match k with
+  | [] => false
+  | KCall cl _ _ _ :: k' =>
+    match get_obj s cl with
+    | Some (OClosure fi _ m') =>
+      (match fn_name fi with [] => Pos.eqb m m' | _ => false end) || kont_loads s m k'
+    | _ => kont_loads s m k'
+    end
+  | _ :: k' => kont_loads s m k'
+  end.
+
+(* ... in the fibers waiting for the running one (vm.rs is_loading_module) *)
+Fixpoint chain_loads (fuel : nat) (s : store) (m : addr) (f : option addr) : bool :=
+  match fuel, f with
+  | S n, Some a =>
+    match get_fiber s a with
+    | Some fb => kont_loads s m (fb_kont fb) || chain_loads n s m (fb_caller fb)
+    | None => false
+    end
+  | _, _ => false
+  end.
+
+Definition is_loading_module (st : state) (m : addr) : bool :=
+  let s := st_store st in
+  kont_loads s m (st_kont st) ||
+  chain_loads 1000 s m (match get_fiber s (st_fiber st) with Some fb => fb_caller fb | None => None end).
+
+Fixpoint registry_remove (p : bytes) (l : list (bytes * addr)) : list (bytes * addr) :=
+  match l with
+  | [] => []
+  | (q, a) :: r => if bytes_eqb p q then r else (q, a) :: registry_remove p r
+  end.
+
 Definition exec_import (st : state) (path : bytes) (alias : name) (rest : list stmt) (en : env) (glob : bool) : sres :=
   let s := st_store st in
   let st_decl := w_push st (KVarDecl alias rest en glob) in
-  match registry_find path (st_modules st) with
-  | Some m =>
-    match get_obj s m with
-    | Some (OModule _ true _) => ret st_decl (VModule m)
-    | _ => throw st EImportError
-                 (B "Circular dependency encountered when importing module '" ++ path ++ B "'.")
-    end
-  | None =>
+  let load (st : state) (st_decl : state) : sres :=
     match modmap_find path (st_srcs st) with
     | MMissing => throw st EImportError (B "Unable to read file '" ++ path ++ B ".yl' (file not found).")
     | MCompileError msgs =>
@@ -544,7 +574,21 @@ Definition exec_import (st : state) (path : bytes) (alias : name) (rest : list s
       let '(s3, cl) := alloc s2 (OClosure (script_fn (prep_program p)) [] m) in
       let st1 := w_modules (w_store st_decl s3) ((path, m) :: st_modules st) in
       call_closure (w_push st1 (KImportDone m)) cl (VClosure cl) []
+    end in
+  match registry_find path (st_modules st) with
+  | Some m =>
+    match get_obj s m with
+    | Some (OModule _ true _) => ret st_decl (VModule m)
+    | _ =>
+      if is_loading_module st m then
+        throw st EImportError
+              (B "Circular dependency encountered when importing module '" ++ path ++ B "'.")
+      else
+        (* an earlier import failed before it finished (repo 367eb72): load the module afresh *)
+        let ms := registry_remove path (st_modules st) in
+        load (w_modules st ms) (w_modules st_decl ms)
     end
+  | None => load st st_decl
   end.
 
 (* ---------- expressions ---------- *)
